@@ -151,6 +151,11 @@ func (c *Ctx) define(hint string, s Sort, body string) string {
 	if c.inQuant > 0 {
 		return body // bound variables may occur: no top-level naming
 	}
+	// a value with boolean structure must not be a macro: it may end up inside a quantifier pattern, where `ite` is
+	// not allowed (z3 drops such patterns, cvc5 rejects them)
+	if s != SBool && strings.Contains(body, "(ite ") {
+		return c.defineEq(hint, s, body)
+	}
 	// small bodies are not worth naming
 	if len(body) < 40 && !strings.Contains(body, "\n") {
 		return body
